@@ -43,7 +43,7 @@ MANIFEST = dict(
          'refuted by a computed history). '
          'translate/c12_atomic.py transliterates __exit__ statement by statement (fail-closed) and reads the facts of '
          'make_tempfile and BSP.save (helper methods of the class and single-assignment locals are inlined first, '
-         'keyword and positional arguments are the same call); the kernel computes the decision trees and 32 named obligations (order of close / '
+         'keyword and positional arguments are the same call); the kernel computes the decision trees and 37 named obligations (order of close / '
          'rename / unlink, no rename after a failing close or a body exception, every failure path unlinks, no exception '
          'swallowed, loop shape, only AtomicWriter output in BSP.save). The real AtomicWriter and BSP.save (existing and '
          'fresh destination, raising body, raising rebuild phase) are run under file-system interposition with a kill '
@@ -76,7 +76,23 @@ MANIFEST = dict(
          'with prunt aw_proto (SM/AtomicProduct.v): c12_product_isolated proves, for every history of uses of A and every '
          'interleaving with B, that B\'s destination is old or complete new, that A and B never hold the same temp name, '
          'that the temp file B holds keeps exactly what B has written, and that nothing else changes (the round-1 '
-         'invariant, re-based at A\'s destination, survives the restart of A).',
+         'invariant, re-based at A\'s destination, survives the restart of A). '
+         'Round 5 (SM/AtomicAbandon.v): a use may be ABANDONED without __exit__ (entered by hand, a generator never '
+         'resumed): the object then still holds an open handle and its temp file when it is entered again. The generated '
+         'prologue of make_tempfile is judged in every attribute state WITH a handle as well: reentry_ok (its decision tree '
+         'is close the handle, unlink the file by name, only then go on to mkdir and the temp-name loop; a failing close '
+         'fails the entry) and reentry_forgets (whenever the entry fails the handle is forgotten, so no later entry comes '
+         'back to the stale name). c12_reentry_after_abandoned_use: for every such tree, every directory and every pattern of '
+         'refused operations in the prologue and the following use, nothing but the held temp file changes in the prologue '
+         'and the use that follows is a good single use — the destination is old or the complete new content of THIS use. A '
+         'prologue that keeps a handle that is still open and returns (seeded c12_8: truncate(0) without seek) has the tree '
+         'XBad: refuted. `<handle>.closed` is translated twice (open / closed handle), truncate / seek / flush of the handle '
+         'are directory-neutral statements. Executed: reuse histories over S, B and A (entered, one or two chunks written, '
+         'never exited; bytes, utf8, utf16, buffer 1 / small / 8192, stale temps), fault-free, one OSError at every '
+         'operation, exception classes, kills; the committed bytes are compared exactly, the first operations of the entry '
+         'after an A must be close + unlink of the held temp file; next to an open second writer the word AES (left open, '
+         'the open of the next entry refused, used again) at every pair of operation boundaries: no use may come back to a '
+         'temp NAME it no longer holds (this found the defect repaired by source commit 9d5716f).',
     note='Trusted: Coq kernel + vm_compute, translate/c12_atomic.py (transliteration only: the symbolic execution is in '
          'the kernel; both are tied by the executed correspondences, the CPython one by sampling), the interposer in checks/c12.py (FileIO subclass + patched '
          'io.open/os.*), POSIX rename atomicity and O_EXCL (modelled, not verified), page cache surviving a process kill '
@@ -88,8 +104,12 @@ MANIFEST = dict(
          'TextIOWrapper, Path.mkdir internals and BSP lump serialisation are only exercised, not modelled. Reuse: the '
          'object facts (_object_facts in the translator) are read, not proved; they are tied by the executed attribute '
          'correspondence. Attribute values outside None/True/False/handle/temp name/destination/exception are "unknown" '
-         '(reading one is outside the model: obligation exit_no_unmodelled_step). make_tempfile called while a temp file '
-         'is open (nested entry: "not reentrant") is not covered. Run classes: all refused operations of one run raise '
+         '(reading one is outside the model: obligation exit_no_unmodelled_step). Entering an object that still holds a '
+         'temp file: the prologue is a generated program with obligations and a theorem about its tree on the directory; the '
+         'histories with abandoned uses are judged by the oracle only (corr_hist models complete uses), `<handle>.closed` is '
+         'a translation-time case split, not a value of the model, and what truncate does to the stream position is outside '
+         'the token model (the shape obligation forbids keeping the file instead). Two writers ENTERED on one object at the '
+         'same time ("not reentrant") is not covered. Run classes: all refused operations of one run raise '
          'the same class (mixed classes in one run are not modelled; when no handler names a subclass the trees are equal '
          'for all classes and the restriction is void). InterruptedError / BlockingIOError are not injected into raw writes '
          '(io.BufferedWriter gives them a meaning of its own); a persistent FileExistsError at open is not injected (the '
@@ -102,6 +122,7 @@ MANIFEST = dict(
 )
 
 IMPORTS = ['SV.SM.AtomicWriter', 'SV.SM.AtomicExit', 'SV.SM.AtomicReuse', 'SV.SM.AtomicRetry', 'SV.SM.AtomicProduct',
+           'SV.SM.AtomicAbandon',
            'SV.Gen.AtomicWriter_gen', 'Coq.Lists.List', 'Coq.Bool.Bool',
            'Coq.Arith.PeanoNat']
 PRE = 'Import ListNotations.\n'
@@ -109,6 +130,13 @@ PRE = 'Import ListNotations.\n'
 OLD_TOK = 100      # File k had content [OLD_TOK + k] before
 STALE_TOK = 110    # stale tmp_i had content [STALE_TOK + i] before
 W_MODES = set('wxa+')
+
+
+def deferred(ck: Any) -> '_Deferred':
+    base = getattr(ck, '_ck', ck)            # a _Keyed wrapper stands for its Ck
+    if not hasattr(base, '_c12_deferred'):
+        base._c12_deferred = _Deferred(base)
+    return base._c12_deferred
 
 
 def is_big(ck: Ck) -> bool:
@@ -742,7 +770,7 @@ def single_campaign(ck: Ck, scs: list[dict], do_model: bool) -> None:
     for si, sc in enumerate(scs):
         _single_scenario(ck, work, si, sc, do_model, cases)
     if do_model:
-        eval_cases(ck, cases, 'single')
+        deferred(ck).submit(eval_cases, cases, 'single')
 
 
 class _Keyed:
@@ -1103,8 +1131,9 @@ def _class_runs(ck: Any, sc: dict, fresh: Callable[[str], str], ops0: list[dict]
 def eval_cases(ck: Ck, cases: list[dict], tag: str) -> None:
     bad: list[dict] = []
     n = 0
-    for lo in range(0, len(cases), 700):
-        part = cases[lo:lo + 700]
+    ch = 700 if ck.thorough else 5000
+    for lo in range(0, len(cases), ch):
+        part = cases[lo:lo + ch]
         vals = ck.coq_eval(IMPORTS, [coq_list(c['coq'] for c in part)], name=f'aw_{tag}', preamble=PRE)
         if vals is None:
             ck.obligation(f'correspondence:{tag}', False, 'model could not be evaluated')
@@ -1242,6 +1271,7 @@ def run_history(hs: dict, root: str, fault_at: Any = None, crash_at: int | None 
     sim = FsSim(root, hs.get('bufsize', 8192), fault_at, crash_at, plan=plan)
     outcomes: list[str] = []
     listings: list[dict[str, bytes]] = [listing(root)]
+    leaked: list[Any] = []
     with sim, deadline():
         AWSpy = make_spy_class(sim)
         aw = AWSpy(dest, is_bytes=not hs.get('text'), **({'encoding': hs['encoding']} if hs.get('text') else {}))
@@ -1252,8 +1282,16 @@ def run_history(hs: dict, root: str, fault_at: Any = None, crash_at: int | None 
             sim.set_phase('pre')
             outcome = 'ok'
             try:
-                with aw as f:
+                if use.get('abandon'):
+                    # letter A: entered and written, but the matching __exit__ never happens (a generator that is never
+                    # resumed, a caller that leaks the context): the handle stays open, the object is used again later
+                    f = aw.__enter__()
+                    leaked.append(f)
                     body_plain(use)(f)
+                    outcome = 'abandoned'
+                else:
+                    with aw as f:
+                        body_plain(use)(f)
             except (Exception, KeyboardInterrupt) as e:
                 outcome = _outcome(e)
             except HangError as e:
@@ -1265,6 +1303,11 @@ def run_history(hs: dict, root: str, fault_at: Any = None, crash_at: int | None 
         while len(outcomes) < len(hs['uses']):       # a hung use ends the history: the later uses are not run
             outcomes.append(outcomes[-1])
             listings.append(listings[-1])
+    for f in leaked:          # outside the interposition: handles the history left open are closed unrecorded
+        try:
+            f.close()
+        except Exception:
+            pass
     return dict(ops=sim.ops, outcomes=outcomes, listings=listings, snaps=sim.snaps, dest=dest)
 
 
@@ -1290,6 +1333,9 @@ def history_scenarios(ck: Ck) -> list[dict]:
             chunks: list[Any] = [b'U%d-AAAA' % u, b'U%d-BBBBBB' % u, b'U%d-CC' % u]
             if text:
                 chunks = [c.decode() + '\n' for c in chunks]
+            if ch == 'A':       # entered, one or two chunks written, never exited
+                us.append(dict(chunks=chunks[:1 + u % 2], abandon=True))
+                continue
             us.append(dict(chunks=chunks, **({'raise_after': 1 + u % 2} if ch == 'B' else {})))
         return us
 
@@ -1309,6 +1355,17 @@ def history_scenarios(ck: Ck) -> list[dict]:
     add('SB', text=True, encoding='utf8', bufsize=8192)
     add('BS', text=True, encoding='utf8', bufsize=4)
     add('SSB', init={'keep.txt': b'k'}, bufsize=8192)          # the destination does not exist before the first use
+    # round 5: words with the letter A = entered and written but never exited (the handle stays open), then used again
+    add('AS')
+    add('AS', bufsize=8192)
+    add('AS', text=True, encoding='utf8', bufsize=8192)
+    add('SAS', text=True, encoding='utf16', bufsize=4)
+    add('AAS', init={'out.bin': OLD, 'tmp_2': b'STALE2', 'keep.txt': b'k'}, bufsize=6)
+    add('ABS')
+    if escalated(ck):
+        for w in ['ASA', 'AAB', 'SASB', 'BAAS']:
+            add(w, bufsize=ck.rng.choice([1, 7, 8192]))
+        add('ASS', text=True, encoding='utf8', bufsize=1)
     for _ in range(budget(ck, 2, 12)):
         w = ''.join(ck.rng.choice('SB') for _ in range(ck.rng.choice([2, 3, 3, 4])))
         init = {'keep.txt': b'keep'}
@@ -1326,7 +1383,8 @@ def hist_replay_obj(mode: str, hs: dict, k: Any) -> dict:
     d['uses'] = [{**u, 'chunks': [c.hex() if isinstance(c, bytes) else c for c in u['chunks']]} for u in hs['uses']]
     return {'mode': mode, 'history': d, 'k': k,
             'how': './check C12 --replay <this file> re-runs the history (one AtomicWriter object, one `with` block per '
-                   'letter of `word`: S = body returns, B = body raises) with the same OSError / kill point k'}
+                   'letter of `word`: S = body returns, B = body raises, A = entered by hand and written, never exited) with the same '
+                   'OSError / kill point k'}
 
 
 _MISSING = object()
@@ -1394,11 +1452,32 @@ def attr_case(r: dict, per_use: list[dict], names: list[str], objterm: str = 'aw
 def _prev_class(word: str, outcomes: list[str], u: int) -> str:
     if u == 0:
         return 'first-use'
+    if word[u - 1] == 'A':
+        return 'after-a-use-left-open'
     if outcomes[u - 1] == 'ok':
         return 'after-a-successful-use'
     if outcomes[u - 1] == 'body':
         return 'after-an-abandoned-use'
     return 'after-a-failed-use'
+
+
+def held_names(hs: dict, r: dict) -> list[str | None]:
+    """For every use of an executed history: the temp name whose handle the object still holds when the use starts (left
+    by a use that was entered but never exited), computed from the recorded operations alone: a use without __exit__
+    keeps the temp file it opened; the next entry that is attempted gives it up."""
+    out: list[str | None] = []
+    held: str | None = None
+    for u, use in enumerate(hs['uses']):
+        out.append(held)
+        uops = [o for o in r['ops'] if o['u'] == u]
+        if held is not None and uops:
+            # entering again gives the old temp file up: it is removed, or (close / unlink refused: the entry fails) at
+            # least forgotten — an object that comes back to the NAME later may find it owned by somebody else
+            held = None
+        opened = [o['name'] for o in uops if o['op'] == 'open' and o['res'] == 'ok']
+        if use.get('abandon') and opened:
+            held = opened[-1]
+    return out
 
 
 def history_campaign(ck: Ck, do_model: bool) -> None:
@@ -1421,7 +1500,9 @@ def history_campaign(ck: Ck, do_model: bool) -> None:
         # (use u, j-th raw write) = token 16*u + j: distinct over the whole history, below the tokens of old contents
         wmaps, scens = [], []
         wall: dict[int, tuple[int, bytes]] = {}
-        modelled = do_model and nuse <= 5
+        # the model's histories are words over complete uses: a history with a use that is never exited is judged by the
+        # oracle alone (what the model says about it is the entry obligation on the generated prologue)
+        modelled = do_model and nuse <= 5 and not any(u.get('abandon') for u in hs['uses'])
         for u, use in enumerate(hs['uses']):
             wr = [o for o in ops0 if o['u'] == u and o['op'] == 'write']
             modelled = modelled and len(wr) <= 15
@@ -1440,44 +1521,68 @@ def history_campaign(ck: Ck, do_model: bool) -> None:
             of the model, specialised to the run class of the injected exception; None: oracle only)."""
             rp = hist_replay_obj('history', hs, fault)
             per_use: list[dict] | None = []
+            helds = held_names(hs, r)
             for u, use in enumerate(hs['uses']):
                 before, after, outc = r['listings'][u], r['listings'][u + 1], r['outcomes'][u]
                 uops = [o for o in r['ops'] if o['u'] == u]
                 hit = [o for o in uops if o['res'] == 'fault']
                 raising = use.get('raise_after') is not None
+                leaving = bool(use.get('abandon'))
+                held = helds[u]
                 pos = _prev_class(hs['word'], r['outcomes'], u)
-                what = (f'history {hs["word"]}, use {u + 1} ({"body raises" if raising else "body returns"}'
+                what = (f'history {hs["word"]}, use {u + 1} ('
+                        f'{"entered, written, never exited" if leaving else "body raises" if raising else "body returns"}'
                         f'{", OSError in " + op_label(hit[0]) if hit else ""}; {pos.replace("-", " ")}): ')
                 cause = ((f'{op_label(hit[0])}-{hit[0]["cls"].split(":")[0]}-fault' if hit[0].get('cls') else f'{op_label(hit[0])}-fault')
-                         if hit else ('body-exception' if raising else 'success'))
+                         if hit else ('leaving-open' if leaving else 'body-exception' if raising else 'success'))
                 transient = isinstance(fault, dict) and fault.get('times') is not None     # refused k times, then accepted
-                exp_out = 'body' if raising else 'ok'
-                if (not hit and outc != exp_out) or (hit and ((outc == 'ok' and not transient) or outc.startswith(('other', 'hang')))):
+                exp_out = 'abandoned' if leaving else 'body' if raising else 'ok'
+                if (not hit and outc != exp_out) or (hit and ((outc in ('ok', 'abandoned') and not transient)
+                                                              or outc.startswith(('other', 'hang')))):
                     ck.violation(f'reuse:unexpected-outcome-after-{cause}:{pos}', what + f'the with statement ended with {outc}', rp)
                 d = after.get(hs['dest'])
                 if outc == 'ok' and d != news[u]:
                     ck.violation(f'reuse:wrong-content-after-{cause}:{pos}', what + f'destination holds {d!r:.60}', rp)
                 if outc != 'ok' and d != before.get(hs['dest']):
                     ck.violation(f'reuse:dest-changed-after-{cause}:{pos}',
-                                 what + f'the use failed ({outc}) but the destination holds {d!r:.60} instead of '
+                                 what + f'the use did not commit ({outc}) but the destination holds {d!r:.60} instead of '
                                         f'{before.get(hs["dest"])!r:.40}', rp)
                 extra = set(after) - set(before) - {hs['dest']}
-                if extra and not any(o['op'] == 'unlink' for o in hit):
-                    ck.violation(f'reuse:temp-left-after-{cause}:{pos}', what + f'{sorted(extra)} stayed in the directory', rp)
+                # a use that is never exited keeps the one temp file it opened (that is no handled failure: nothing has
+                # failed or ended yet); everything else is judged as before, relative to the directory the use started in
+                mine = {o['name'] for o in uops if o['op'] == 'open' and o['res'] == 'ok'} if leaving else set()
+                if extra - mine and not any(o['op'] == 'unlink' for o in hit):
+                    ck.violation(f'reuse:temp-left-after-{cause}:{pos}', what + f'{sorted(extra - mine)} stayed in the directory', rp)
                 for n0, v0 in before.items():
-                    if n0 != hs['dest'] and after.get(n0) != v0:
+                    if n0 != hs['dest'] and n0 != held and after.get(n0) != v0:
                         ck.violation(f'reuse:foreign-file-touched-after-{cause}:{pos}', what + f'{n0} changed or vanished', rp)
+                # the temp file of the use that was left open: entering again must give it up (close the handle, remove the
+                # file) before anything else happens, and the new use must write into a file created afresh
+                npro = 0        # the prologue of the entry: the operations before mkdir that concern the held temp file
+                if held is not None:
+                    while npro < len(uops) and uops[npro]['op'] != 'mkdir' and uops[npro]['phase'] == 'enter' \
+                            and uops[npro]['name'] == held:
+                        npro += 1
+                pro, rest = uops[:npro], uops[npro:]
+                if held is not None and uops:
+                    shape = [(o['op'], o['res']) for o in pro if o['op'] != 'write']
+                    refused = any(o['res'] == 'fault' for o in pro)
+                    if not refused and shape not in ([('close', 'ok'), ('unlink', 'ok')], [('unlink', 'ok')]):
+                        ck.violation(f'reuse:open-temp-not-given-up-on-entry:{pos}',
+                                     what + f'the object still held {held}; entering again performed '
+                                            f'{[(o["op"], o["name"], o["res"]) for o in uops[:6]]} instead of close + unlink of {held} first', rp)
                 opens = [(o['name'], o['res']) for o in uops if o['op'] == 'open']
                 if opens and not any(o['op'] in ('mkdir', 'open') for o in hit):
+                    taken = set(before) - ({held} if any(o['op'] == 'unlink' and o['res'] != 'fault' for o in pro) else set())
                     j = 1
-                    while f'tmp_{j}' in before:
+                    while f'tmp_{j}' in taken:
                         j += 1
                     if opens != [(f'tmp_{i}', 'exist') for i in range(1, j)] + [(f'tmp_{j}', 'ok')]:
                         ck.violation(f'reuse:temp-name-loop:{pos}', what + f'open attempts {opens[:6]}, expected tmp_1..tmp_{j}', rp)
-                first = uops[0]['op'] if uops else None
+                first = rest[0]['op'] if rest else None
                 if first is not None and first != 'mkdir':
                     ck.violation(f'reuse:entry-does-not-start-afresh:{pos}',
-                                 what + f'the use starts with {first} {uops[0]["name"]} (left over from the previous use)', rp)
+                                 what + f'the use starts with {first} {rest[0]["name"]} (left over from the previous use)', rp)
                 ck.seen(('history', hs['kind'], repr(fault), u))
                 if not modelled or per_use is None or objterm is None:
                     continue
@@ -1517,6 +1622,7 @@ def history_campaign(ck: Ck, do_model: bool) -> None:
                                   what={'run': how, 'history': hs['kind'], 'fault': repr(fault)}))
 
         judge(base, None, 'fault-free history')
+        helds0 = held_names(hs, base)
         # ---- one OSError at every injectable operation of the whole history
         for o in ops0:
             if not o['inj']:
@@ -1529,7 +1635,8 @@ def history_campaign(ck: Ck, do_model: bool) -> None:
             judge(r, o['k'], f'OSError at operation {o["k"]} ({op_label(o)}) of the history')
         # ---- round 4: an exception of a named class / KeyboardInterrupt, persistently, at every operation that is no raw
         # write (the same operation of the later uses is refused as well: a failed use follows a failed use)
-        if nuse >= 2 and (hi % 4 == 0 or ck.thorough):
+        leaves_open = any(u.get('abandon') for u in hs['uses'])
+        if nuse >= 2 and (hi % 4 == 0 or (ck.thorough and (hi % 2 == 0 or not leaves_open))):
             for o in ops0:
                 if not o['inj'] or o['op'] == 'write':
                     continue
@@ -1579,19 +1686,20 @@ def history_campaign(ck: Ck, do_model: bool) -> None:
             if len(extra) > 1 or any(NameMap.tmp_index(x) is None for x in extra):
                 ck.violation(f'reuse:unexpected-files-at-crash:{at}:{pos}', f'files {sorted(extra)} present after the kill', rp)
             for n0, v0 in before.items():
-                if n0 != hs['dest'] and lst.get(n0) != v0:
+                if n0 != hs['dest'] and n0 != helds0[u] and lst.get(n0) != v0:
                     ck.violation(f'reuse:foreign-file-touched-at-crash:{at}:{pos}', f'{n0} changed', rp)
     ck.extra['histories'] = {'scenarios': len(hss), 'words': sorted({h['word'] for h in hss})}
     if do_model and cases:
-        eval_hist_cases(ck, cases)
+        deferred(ck).submit(eval_hist_cases, cases)
 
 
 def eval_hist_cases(ck: Ck, cases: list[dict]) -> None:
     bad: list[dict] = []
     abad: list[dict] = []
     n = na = 0
-    for lo in range(0, len(cases), 250):
-        part = cases[lo:lo + 250]
+    ch = 250 if ck.thorough else 5000
+    for lo in range(0, len(cases), ch):
+        part = cases[lo:lo + ch]
         vals = ck.coq_eval(IMPORTS, [coq_list(c['coq'] for c in part),
                                      coq_list((c['attrs'][0] if c['attrs'] else '[]') for c in part)],
                            name='aw_history', preamble=PRE)
@@ -1666,6 +1774,7 @@ def run_two(scs: tuple[dict, dict], root: str, prefix: list[int], init: dict[str
     per_use: list[list[str]] = [[], []]
     executed: list[int] = []
     enabled: list[list[int]] = []
+    leaked: list[Any] = []
     with sim:
         AWSpy = make_spy_class(sim)
 
@@ -1682,8 +1791,14 @@ def run_two(scs: tuple[dict, dict], root: str, prefix: list[int], init: dict[str
                     sim.set_phase('pre')
                     out = 'ok'
                     try:
-                        with aw as f:
+                        if use.get('abandon'):       # entered and written, never exited (see run_history)
+                            f = aw.__enter__()
+                            leaked.append(f)
                             body_plain(use)(f)
+                            out = 'abandoned'
+                        else:
+                            with aw as f:
+                                body_plain(use)(f)
                     except BodyError:
                         out = 'body'
                     except OSError as e:
@@ -1711,7 +1826,13 @@ def run_two(scs: tuple[dict, dict], root: str, prefix: list[int], init: dict[str
                 break
         for t in ths:
             t.join(timeout=10)
-    return dict(ops=sim.ops, outcomes=outcomes, per_use=per_use, executed=executed, enabled=enabled, listing=listing(root))
+    lst = listing(root)
+    for f in leaked:          # handles a history left open: closed outside the interposition, unrecorded
+        try:
+            f.close()
+        except Exception:
+            pass
+    return dict(ops=sim.ops, outcomes=outcomes, per_use=per_use, executed=executed, enabled=enabled, listing=lst)
 
 
 class Pair:
@@ -1909,7 +2030,7 @@ def two_writer_campaign(ck: Ck, do_model: bool) -> None:
         ck.extra.setdefault('interleavings', {})[tag] = {
             'executed': nrun, 'exhaustive': exhaustive, 'boundary_pairs': npairs, 'ops': [n1, n2], 'fault_runs': nfault}
     if do_model and cases:
-        eval_cases2(ck, cases)
+        deferred(ck).submit(eval_cases2, cases)
 
 
 def product_campaign(ck: Ck, do_model: bool = False) -> None:
@@ -1926,20 +2047,35 @@ def product_campaign(ck: Ck, do_model: bool = False) -> None:
     big = is_big(ck)
     cases: list[dict] = []
     init = {'a.bin': b'OLDA', 'b.bin': b'OLDB', 'keep.txt': b'k'}
-    words = ['SS', 'BS', 'FS'] + (['SB', 'SSS', 'FB', 'SFS'] if escalated(ck) else [])
+    # round 5: A = entered and written, never exited (the handle stays open); E = the open of that entry is refused (the
+    # entry fails after the prologue has given up the temp file of the abandoned use).  AES: whatever the object still
+    # holds after the failed entry, the last use must not come back to the NAME tmp_1 — B may own it by then
+    words = ['SS', 'BS', 'FS', 'AES'] + (['SB', 'SSS', 'FB', 'SFS', 'AS', 'AEB'] if escalated(ck) else [])
     B = dict(dest='b.bin', chunks=[b'B1', b'B2'])
     variants = [(w, False) for w in words] + ([('SS', True)] if escalated(ck) else [])
     for word, text in variants:
         uses = []
         for u, ch in enumerate(word):
             chunk: Any = b'A%d' % u
-            uses.append(dict(chunks=[chunk.decode() + '\n' if text else chunk], **({'raise_after': 1} if ch == 'B' else {})))
+            uses.append(dict(chunks=[chunk.decode() + '\n' if text else chunk], **({'raise_after': 1} if ch == 'B' else {}),
+                             **({'abandon': True} if ch == 'A' else {})))
         A = dict(dest='a.bin', uses=uses, chunks=[], **({'text': True} if text else {}))
         seq = run_two((A, B), work, [0] * 200, init)
         opsA = [o for o in seq['ops'] if o['w'] == 0]
         n1, n2 = len(opsA), sum(1 for o in seq['ops'] if o['w'] == 1)
         # F: the rename of that use of A is refused (global number of the operation when A runs first up to there)
-        faults = [next(o['k'] for o in opsA if o['u'] == u and o['op'] == 'replace') for u, ch in enumerate(word) if ch == 'F']
+        faults = [next((o['k'] for o in opsA if o['u'] == u and o['op'] == ('replace' if ch == 'F' else 'open')
+                        and o['res'] == 'ok'), None) for u, ch in enumerate(word) if ch in 'FE']
+        if None in faults:
+            # the use never performs the operation this word wants refused (e.g. an entry that creates no temp file of its
+            # own): that is a failing input by itself, not a reason for the check to stop
+            product_check(ck, word, A, B, init, seq, None)
+            ck.violation(f'two-writers-reuse:use-without-its-own-open-or-rename:{word}',
+                         f'fault-free run of the word {word}: a use marked E / F performed no successful '
+                         f'{"open" if "E" in word else "replace"}: {[(o["u"], o["op"], o["name"], o["res"]) for o in opsA][:24]}',
+                         {'mode': 'product', 'word': word, 'a': {**A, 'uses': [_hexsc(u) for u in A['uses']]}, 'b': _hexsc(B),
+                          'init': {n: v.hex() for n, v in init.items()}, 'schedule': seq['executed'], 'fault_at': None})
+            continue
         fault_at = faults[0] if faults else None
         seen_sched: set[tuple[int, ...]] = set()
         nrun = 0
@@ -1961,11 +2097,11 @@ def product_campaign(ck: Ck, do_model: bool = False) -> None:
                     ck.seen(('product', word, text, ex))
                     ck.hist('product_word', word + ('-text' if text else ''))
                     product_check(ck, word, A, B, init, r, fault_at)
-                    if do_model and not text:
+                    if do_model and not text and 'A' not in word:      # the model's histories are complete uses
                         product_case(word, A, B, init, r, cases)
         ck.extra.setdefault('product', {})[word + ('-text' if text else '')] = {'runs': nrun, 'ops': [n1, n2]}
     if do_model and cases:
-        eval_product_cases(ck, cases)
+        deferred(ck).submit(eval_product_cases, cases)
 
 
 def product_case(word: str, A: dict, B: dict, init: dict[str, bytes], r: dict, cases: list[dict]) -> None:
@@ -2025,8 +2161,9 @@ def eval_product_cases(ck: Ck, cases: list[dict]) -> None:
     bad: list[dict] = [{'what': c['what']} for c in cases if c['coq'] is None]
     good = [c for c in cases if c['coq'] is not None]
     n = 0
-    for lo in range(0, len(good), 600):
-        part = good[lo:lo + 600]
+    ch = 600 if ck.thorough else 5000
+    for lo in range(0, len(good), ch):
+        part = good[lo:lo + ch]
         vals = ck.coq_eval(IMPORTS, [coq_list(c['coq'] for c in part)], name='aw_product', preamble=PRE)
         if vals is None:
             ck.obligation('correspondence:product', False, 'model could not be evaluated')
@@ -2077,8 +2214,8 @@ def product_check(ck: Ck, word: str, A: dict, B: dict, init: dict[str, bytes], r
     for u, ch in enumerate(word):
         got = r['per_use'][0][u] if u < len(r['per_use'][0]) else '<not run>'
         faulted = any(o['w'] == 0 and o['u'] == u for o in hit)
-        want = 'body' if ch == 'B' else 'ok'
-        if (not faulted and got != want) or (faulted and (got == 'ok' or got.startswith(('other', 'hang')))):
+        want = 'body' if ch == 'B' else 'abandoned' if ch == 'A' else 'ok'
+        if (not faulted and got != want) or (faulted and (got in ('ok', 'abandoned') or got.startswith(('other', 'hang')))):
             ck.violation(key('unexpected-outcome'), f'use {u + 1} ({ch}) of the reused writer ended with {got}, '
                                                     f'B is open in between (schedule {r["executed"][:24]})', rp)
         if got == 'ok':
@@ -2091,6 +2228,8 @@ def product_check(ck: Ck, word: str, A: dict, B: dict, init: dict[str, bytes], r
         ck.violation(key('destination-of-the-other-writer-clobbered'),
                      f'b.bin holds {lst.get("b.bin")!r:.40}, expected {_data(B)!r:.40}', rp)
     extra = set(lst) - set(init)
+    if word.endswith('A'):        # the last use is still open: it keeps the one temp file it holds
+        extra -= {o['name'] for o in r['ops'] if o['w'] == 0 and o['u'] == len(word) - 1 and o['op'] == 'open' and o['res'] == 'ok'}
     if extra and not any(o['op'] == 'unlink' for o in hit):
         ck.violation(key('temp-left'), f'{sorted(extra)} left', rp)
     for n0, v0 in init.items():
@@ -2123,8 +2262,9 @@ def _data(s: dict) -> bytes:
 def eval_cases2(ck: Ck, cases: list[dict]) -> None:
     bad = []
     n = 0
-    for lo in range(0, len(cases), 900):
-        part = cases[lo:lo + 900]
+    ch = 900 if ck.thorough else 5000
+    for lo in range(0, len(cases), ch):
+        part = cases[lo:lo + ch]
         vals = ck.coq_eval(IMPORTS, [coq_list(c['coq'] for c in part)], name='aw_two', preamble=PRE)
         if vals is None:
             ck.obligation('correspondence:two-writers', False, 'model could not be evaluated')
@@ -2546,8 +2686,9 @@ def interp_correspondence(ck: Ck) -> None:
         return [r for r in runs if not r[0].startswith('(RSub') or table[int(r[0][6:-1])] in src]
     bad: list[dict] = []
     n = 0
-    for lo in range(0, len(progs), 60):
-        part = progs[lo:lo + 60]
+    ch = 60 if ck.thorough else 400
+    for lo in range(0, len(progs), ch):
+        part = progs[lo:lo + ch]
         exprs = []
         for _src, term in part:
             walks = '; '.join(f'walk (exit_tree (spec_stmt {rc} p) {"true" if exc else "false"}) {coq_list(map(str, o))}'
@@ -2651,6 +2792,137 @@ def class_table_correspondence(ck: Ck) -> None:
         ck.extra['class_table_disagreements'] = bad[:8]
 
 
+class _Pending(Exception):
+    """Raised by the recording pass of _Deferred when the function reaches its first model evaluation."""
+
+
+class _Deferred:
+    """Model evaluations (coqc, vm_compute: 2-8 s of CPU each) in the background.
+
+    `submit(fn, *args)` runs `fn(proxy, *args)` up to its first `coq_eval` request, starts coqc for that request as a
+    separate PROCESS (no thread: the campaigns fork) and returns; `join()` runs `fn` again, this time handing it the
+    output of that process (any further request of the same call is evaluated synchronously), so everything `fn` reports
+    (obligations, counts, broken ties) is reported exactly as before, only later.  `fn` must not do anything that may
+    not be repeated before its first request (the eval_* functions only build lists).  Joins happen at fixed points of
+    the run (after the stage FOLLOWING the one that submitted), so results do not depend on timing."""
+
+    def __init__(self, ck: Ck) -> None:
+        self.ck = ck
+        self.jobs: list[dict] = []
+
+    def submit(self, fn: Callable, *args: Any) -> None:
+        import subprocess
+        from harness.common import ROCQ, _unlimit_stack
+        ck, outer = self.ck, self
+
+        class Rec:
+            def __getattr__(self, name: str) -> Any:
+                return getattr(ck, name)
+
+            def coq_eval(self, imports, exprs, name='eval', timeout=600, preamble=''):
+                body = ''.join(f'Require Import {i}.\n' for i in imports) + preamble + '\n'
+                body += 'Set Printing Width 1000000.\nSet Printing Depth 1000000.\n'
+                for e in exprs:
+                    body += f'Eval vm_compute in ({e}).\n'
+                d = ck.scratch / f'coq_{name}_bg{len(os.listdir(ck.scratch))}'
+                d.mkdir()
+                (d / f'{name}.v').write_text(body)
+                fh = open(d / 'out.txt', 'w')
+                proc = subprocess.Popen(['coqc', '-Q', str(ROCQ), 'SV', '-Q', str(d), 'Scratch', str(d / f'{name}.v')],
+                                        stdout=fh, stderr=subprocess.STDOUT, cwd=d, preexec_fn=_unlimit_stack)
+                outer.jobs.append(dict(fn=fn, args=args, key=(tuple(imports), tuple(exprs), preamble), proc=proc, fh=fh,
+                                       out=d / 'out.txt', name=name, timeout=timeout, rng=rng0))
+                raise _Pending()
+        rng0 = ck.rng.getstate()      # the second pass must draw what the first one drew (interp_correspondence generates
+        try:                          # its programs before its first request, and draws nothing afterwards)
+            fn(Rec(), *args)          # completes only when it needs no evaluation at all (then its reports are made)
+        except _Pending:
+            pass
+
+    def join(self, keep: int = 0) -> None:
+        """Finish all submitted calls but the `keep` most recent ones, in the order of submission."""
+        import subprocess
+        from harness.common import _split_evals
+        ck = self.ck
+        while len(self.jobs) > keep:
+            job = self.jobs.pop(0)
+
+            class Play:
+                def __getattr__(self, name: str) -> Any:
+                    return getattr(ck, name)
+
+                def coq_eval(self, imports, exprs, name='eval', timeout=600, preamble='', job=job):
+                    if job.get('used') or (tuple(imports), tuple(exprs), preamble) != job['key']:
+                        return ck.coq_eval(imports, exprs, name=name, timeout=timeout, preamble=preamble)
+                    job['used'] = True
+                    try:
+                        rc = job['proc'].wait(timeout=job['timeout'])
+                    except subprocess.TimeoutExpired:
+                        job['proc'].kill()
+                        rc = 124
+                    job['fh'].close()
+                    out = job['out'].read_text() if rc != 124 else f'coqc timeout after {job["timeout"]}s'
+                    if rc != 0:
+                        ck.notes.append(f'coq_eval {name} failed: {out[-1500:]}')
+                        return None
+                    vals = _split_evals(out)
+                    if len(vals) != len(exprs):
+                        ck.notes.append(f'coq_eval {name}: expected {len(exprs)} values, got {len(vals)}')
+                        return None
+                    return vals
+            cur = ck.rng.getstate()
+            ck.rng.setstate(job['rng'])
+            try:
+                job['fn'](Play(), *job['args'])
+            finally:
+                ck.rng.setstate(cur)
+                if job['proc'].poll() is None:
+                    job['proc'].kill()
+
+
+class _HygieneInBackground:
+    """What Ck.hygiene does (harness.common.scan_hygiene over every .v file of the development: 13 s of CPU), in a separate
+    process started after the Gen file is written and collected at the end of the run; reported under the same name."""
+
+    def __init__(self, ck: Ck) -> None:
+        import subprocess
+        import sys
+        self.ck = ck
+        ck._hygiene_done = True           # Ck.build would otherwise run the scan synchronously
+        self.out = ck.scratch / 'hygiene_bg.json'
+        self.fh = open(self.out, 'w')
+        self.proc = subprocess.Popen([sys.executable, '-c',
+                                      'import json, harness.common as h; print(json.dumps(h.scan_hygiene()))'],
+                                     stdout=self.fh, stderr=subprocess.STDOUT)
+        self.done = False
+
+    def join(self) -> None:
+        import json
+        import subprocess
+        if self.done:
+            return
+        self.done = True
+        ck = self.ck
+        try:
+            rc = self.proc.wait(timeout=900)
+        except subprocess.TimeoutExpired:
+            self.proc.kill()
+            rc = 124
+        self.fh.close()
+        txt = self.out.read_text()
+        try:
+            bad = json.loads(txt.strip().splitlines()[-1]) if rc == 0 else None
+        except Exception:
+            bad = None
+        if bad is None:
+            from harness.common import scan_hygiene
+            bad = scan_hygiene()          # the background scan did not come back: do it here
+        ck.obligation('hygiene:no_admitted_axiom_parameter_or_unchecked_flag', not bad,
+                      'all .v files scanned (comments removed): none found' if not bad else '; '.join(bad[:20]))
+        if bad:
+            ck.tie_broken.append('hygiene: ' + '; '.join(bad[:5]))
+
+
 class _TheoremsInBackground:
     """What ck.theorems does (Print Assumptions of every theorem of Props/C12.v: one coqc process, 8-40 s on a loaded
     machine), started as a separate PROCESS right after the build and collected at the end of the run, so that it costs
@@ -2708,8 +2980,10 @@ def run(ck: Ck) -> None:
                'one with a shared destination) are run under EVERY interleaving (DFS over schedules) or at every pair of '
                'operation boundaries (A^k1 B^k2 and B^k2 A^k1), and with one OSError at every operation of 3-6 schedules. '
                'Reuse histories: ONE AtomicWriter object, one with-block per letter of a word over S (body returns) / B (body '
-               'raises after some writes) — S, B, SS, SB, BS, BB, SSB, BSB, SBS, SBB (+ longer and random words when '
-               'escalated), bytes/text, buffer sizes, stale temps, missing destination — run fault-free, with one OSError at '
+               'raises after some writes) / A (round 5: __enter__ by hand, one or two chunks written, NO __exit__: the handle '
+               'stays open) — S, B, SS, SB, BS, BB, SSB, BSB, SBS, SBB, AS (bytes buffer 1 / 8192, utf8 text), SAS (utf16), '
+               'AAS (stale temp), ABS (+ longer and random words when escalated), bytes/text, buffer sizes, stale temps, '
+               'missing destination — run fault-free, with one OSError at '
                'EVERY injectable operation of the whole history, and killed before every operation of the later uses; every '
                'use is judged relative to the directory it started in, and the instance attributes of the object are '
                'snapshotted after __init__, inside every body and after every __exit__. '
@@ -2720,8 +2994,9 @@ def run(ck: Ck) -> None:
                'the first and the last) x 14 exception classes x {refused for ever, refused 1 / 2 / 3 / 5 times then accepted '
                '(run only when the persistent run was refused more often than that: otherwise it is the same run)}; in every '
                'fourth reuse history every non-write operation x {PermissionError, KeyboardInterrupt} x {for ever, twice}; '
-               'distinct by (scenario, operation, class, times). Product: writer A = one object used for the words SS, BS, FS '
-               '(F: the rename of that use is refused; + SB, SSS, FB, SFS and a text writer when escalated), writer B a '
+               'distinct by (scenario, operation, class, times). Product: writer A = one object used for the words SS, BS, FS, AES '
+               '(F: the rename of that use is refused; A: entered, written, never exited; E: the open of that entry is '
+               'refused; + SB, SSS, FB, SFS, AS, AEB and a text writer when escalated), writer B a '
                'single-use writer of another file, every pair (k1, k2) of completed operations reached as A^k1 B^k2 and for '
                'every other pair as B^k2 A^k1; distinct by the executed schedule. '
                'Interpreter tie: program = random __exit__ body of the translator subset (2-5 top-level statements, depth <= 3, '
@@ -2752,6 +3027,7 @@ def run(ck: Ck) -> None:
     ]
     ok_t = ck.translate('AtomicWriter_gen', c12_atomic.translate)
     side = ck.extra.get('translated', {}).get('AtomicWriter_gen', {})
+    hygiene = _HygieneInBackground(ck) if ok_t else None
     built = ok_t and ck.build(['Props/C12.vo', 'Gen/AtomicWriter_gen.vo'])
     background = None
     if built:
@@ -2806,7 +3082,20 @@ def run(ck: Ck) -> None:
             'reuse_exit_always_clears_the_temp_handle': allc('exit_always_leaves o 0 VNone'),
             # what make_tempfile does before mkdir / the temp-name loop touches nothing whenever no temp file is open
             # (the model enters a use with mkdir): c12_entry_prologue_keyed_on_stale_name_refuted is the wrong shape
-            'reuse_entry_touches_nothing_before_creating_its_temp_file': 'entry_inert aw_obj aw_entry_prog',
+            'reuse_entry_touches_nothing_before_creating_its_temp_file':
+                'entry_inert aw_obj aw_entry_prog && entry_inert aw_obj aw_entry_prog_closed',
+            # round 5: the same statements when the object still HOLDS a temp file (a use that was entered and never
+            # exited): close the handle, remove the file by name, and only then go on to create a new one
+            # (c12_reentry_after_abandoned_use; c12_reentry_keeps_open_handle_refuted is the shape of seeded c12_8) ...
+            'reuse_entry_gives_up_a_temp_file_left_open':
+                'reentry_ok aw_obj aw_entry_prog && reentry_ok_closed aw_obj aw_entry_prog_closed',
+            # ... and when that entry fails, the handle is forgotten: no later entry comes back to the stale NAME
+            'reuse_failed_entry_forgets_the_temp_handle':
+                'reentry_forgets aw_obj aw_entry_prog && reentry_forgets aw_obj aw_entry_prog_closed',
+            # literally the hypotheses of c12_property_of_generated_object, for today's generated objects
+            'c12_property_of_generated_object_hypotheses':
+                'all_classes aw_nclasses aw_obj (fun o => retry_ok (obj_proto o) && proto_outcome_ok (obj_proto o) && '
+                'reuse_indep o) && reentry_ok aw_obj aw_entry_prog',
             'reuse_fresh_object_is_unentered': 'init_unentered aw_obj',
             'reuse_enter_binds_handle_and_temp_name': 'enter_binds aw_obj',
             'temp_is_sibling_of_destination': 'aw_tmp_sibling',
@@ -2834,28 +3123,42 @@ def run(ck: Ck) -> None:
         _campaigns(ck, built, background)
     finally:
         os.chdir(cwd0)
+        t1 = time.time()
+        if hygiene is not None:
+            hygiene.join()
         if background is not None:
-            t1 = time.time()
             background.join()
-            ck.extra.setdefault('stage_seconds', {})['wait-for-print-assumptions'] = round(time.time() - t1, 1)
+        ck.extra.setdefault('stage_seconds', {})['wait-for-hygiene-scan-and-print-assumptions'] = round(time.time() - t1, 1)
 
 
 def _campaigns(ck: Ck, built: bool, background: '_TheoremsInBackground | None' = None) -> None:
     import time
-    stage: dict[str, float] = {}
+
+    class _Stages(dict):
+        """wall seconds per stage; next to it the CPU seconds of this process and its reaped children (wall time says
+        little on a loaded machine)."""
+        def __setitem__(self, k: str, v: float) -> None:
+            super().__setitem__(k, v)
+            t = os.times()
+            now = round(t.user + t.system + t.children_user + t.children_system, 1)
+            ck.extra.setdefault('stage_cpu_seconds', {})[k] = round(now - getattr(self, 'last', 0.0), 1)
+            self.last = now
+    stage: dict[str, float] = _Stages()
     ck.extra['stage_seconds'] = stage
     stage['translate+build+obligations'] = round(time.time() - ck.t0, 1)
     t1 = time.time()
     if built:
         class_table_correspondence(ck)
-        interp_correspondence(ck)
+        deferred(ck).submit(interp_correspondence)
     stage['interpreter'] = round(time.time() - t1, 1)
     t1 = time.time()
     scs = scenarios(ck)
     single_campaign(ck, scs, bool(built))
+    deferred(ck).join(keep=1)
     stage['single'] = round(time.time() - t1, 1)
     t1 = time.time()
     history_campaign(ck, bool(built))
+    deferred(ck).join(keep=1)
     stage['history'] = round(time.time() - t1, 1)
     t1 = time.time()
     try:
@@ -2864,13 +3167,18 @@ def _campaigns(ck: Ck, built: bool, background: '_TheoremsInBackground | None' =
         ck.obligation('bsp-sample', False, f'could not prepare the BSP sample: {e!r}')
         bscs = []
     single_campaign_bsp(ck, bscs, bool(built))
+    deferred(ck).join(keep=1)
     stage['bsp'] = round(time.time() - t1, 1)
     t1 = time.time()
     two_writer_campaign(ck, bool(built))
+    deferred(ck).join(keep=1)
     stage['two'] = round(time.time() - t1, 1)
     t1 = time.time()
     product_campaign(ck, bool(built))
     stage['product'] = round(time.time() - t1, 1)
+    t1 = time.time()
+    deferred(ck).join()
+    stage['wait-for-model-evaluations'] = round(time.time() - t1, 1)
     reuse_keys = [v['key'] for v in ck.violations if v['key'].startswith('reuse:')]
     keys = {v['key'].removeprefix('bsp-save:').removeprefix('reuse:') for v in ck.violations}
     class_keys = {k for k in keys if k.startswith('errclass:')}
@@ -2910,6 +3218,12 @@ def _campaigns(ck: Ck, built: bool, background: '_TheoremsInBackground | None' =
         if cond:
             for nme in names:
                 ck.explain(nme)
+    # the composite obligation is the conjunction of others (proto_ok, exit_returns_normally_iff_renamed, reuse_indep,
+    # reentry_ok): it is explained exactly when every other failed instance obligation is
+    comp = 'instance:c12_property_of_generated_object_hypotheses'
+    others = [o for o in ck.obligations if not o['ok'] and o['name'].startswith('instance:') and o['name'] != comp]
+    if others and all(o.get('explained') for o in others):
+        ck.explain(comp)
 
 
 def single_campaign_bsp(ck: Ck, bscs: list[dict], do_model: bool) -> None:
@@ -2918,7 +3232,8 @@ def single_campaign_bsp(ck: Ck, bscs: list[dict], do_model: bool) -> None:
 
 
 # digests (__exit__, make_tempfile) of the source versions the model was written against: pinned tree and repaired tree
-KNOWN_DIGESTS: set = {('b5de1bf6643e', 'd204472bc290'),     # repaired tree (both fix commits)
+KNOWN_DIGESTS: set = {('b5de1bf6643e', '45e89f0885c1'),     # repaired tree (round 5: make_tempfile forgets the old handle first)
+                      ('b5de1bf6643e', 'd204472bc290'),     # repaired tree of rounds 1-4 (both fix commits)
                       ('b5de1bf6643e', '729c8ddbf085'),     # first fix only
                       ('92656bb58107', '729c8ddbf085')}     # pinned tree
 
